@@ -95,6 +95,28 @@ pub fn check(c: &History) -> Result<(), String> {
                     s.h.flush().map_err(|e| format!("{}: flush error {}", what, e))?;
                 }
                 #[cfg(feature = "full")]
+                Op::WriteAll(_) if bytes.len() % 3 == 2 => {
+                    // one time in three: the same bytes as [13-byte head, body, 5-byte tail] through write_vectored,
+                    // repeated on what remains after a partial write (as write_all_vectored does)
+                    use std::io::Write;
+                    let a = core::cmp::min(13, bytes.len());
+                    let b = bytes.len() - core::cmp::min(5, bytes.len() - a);
+                    let mut rest: [&[u8]; 3] = [&bytes[..a], &bytes[a..b], &bytes[b..]];
+                    let mut guard = 0;
+                    while rest.iter().any(|x| !x.is_empty()) {
+                        let bufs = [std::io::IoSlice::new(rest[0]), std::io::IoSlice::new(rest[1]), std::io::IoSlice::new(rest[2])];
+                        let mut n = s.h.write_vectored(&bufs).map_err(|e| format!("{}: write_vectored error {}", what, e))?;
+                        ensure!(n > 0 && n <= rest.iter().map(|x| x.len()).sum::<usize>(), "{}: write_vectored returned {}", what, n);
+                        for x in rest.iter_mut() {
+                            let k = core::cmp::min(n, x.len());
+                            *x = &x[k..];
+                            n -= k;
+                        }
+                        guard += 1;
+                        ensure!(guard < 100_000, "ENGINE: write_vectored loop does not terminate");
+                    }
+                }
+                #[cfg(feature = "full")]
                 Op::WriteAll(_) => {
                     use std::io::Write;
                     s.h.write_all(bytes).map_err(|e| format!("{}: write_all error {}", what, e))?;
@@ -412,7 +434,10 @@ pub fn check_huge(c: &HugeCase) -> Result<(), String> {
 }
 
 fn huge_items(tier: Tier) -> Box<dyn Iterator<Item = HugeCase>> {
-    let mut v = vec![HugeCase { mode: ModeC::Hash, prefix: 1, len: (1u64 << 31) + 1024, suffix: 5, rayon: false }];
+    let mut v = vec![
+        HugeCase { mode: ModeC::Hash, prefix: 1, len: (1u64 << 31) + 1024, suffix: 5, rayon: false },
+        HugeCase { mode: ModeC::Hash, prefix: 0, len: 1u64 << 32, suffix: 0, rayon: false },
+    ];
     if tier == Tier::Thorough {
         v.push(HugeCase { mode: ModeC::Keyed(*gen::TEST_KEY), prefix: 0, len: (1u64 << 32) + 1, suffix: 0, rayon: false });
         v.push(HugeCase { mode: ModeC::Hash, prefix: 1025, len: 1u64 << 32, suffix: 1, rayon: true });
@@ -444,7 +469,7 @@ pub fn subs() -> Vec<Box<dyn DynSub>> {
     }),
     Box::new(crate::runner::EnumSub::<HugeCase> {
         name: "huge-update",
-        rule: "enumeration: one update of 2^31+1024 bytes after a 1-byte prefix (quick); single updates of 2^32+1, 2^32 (rayon, after 1025 bytes) and 2^32+5123 bytes after a 3-chunk prefix (thorough); count() and 100 XOF bytes vs spec (sizes beyond 32-bit arithmetic)",
+        rule: "enumeration: one update of 2^31+1024 bytes after a 1-byte prefix and one of exactly 2^32 bytes (quick); single updates of 2^32+1, 2^32 (rayon, after 1025 bytes) and 2^32+5123 bytes after a 3-chunk prefix (thorough); count() and 100 XOF bytes vs spec (sizes beyond 32-bit arithmetic)",
         items: huge_items,
         classify: |c| Classes::new(true).tag(c.len >= (1u64 << 32), "update>=2^32-bytes").tag(c.rayon, "rayon"),
         check: check_huge,
